@@ -4,6 +4,7 @@
    go-codec are tested by the correspondence run, not proved. *)
 From FMP Require Import Base.Bytes Model.Generated Model.Msgpack Model.Frame Model.Reader
      Proofs.MsgpackProofs Proofs.FrameProofs Proofs.ReaderProofs.
+From FMP Require Import Model.CodecCfg Proofs.CodecCfgProofs.
 Open Scope N_scope.
 
 (* io.EOF is reported exactly when the stream ends on a frame boundary *)
@@ -55,6 +56,10 @@ Example ex_trunc : fst (next_frame (mkEnv [] [] []) 100 [6; 0x93; 3; 5]) = OErr 
 Example ex_neg : next_frame (mkEnv [] [] []) 100 [0xd0; 0xff; 1; 2] = (OErr EPktLen, [1; 2]). Proof. vm_compute. reflexivity. Qed.
 Example ex_big : next_frame (mkEnv [] [] []) 100 [0xce; 0; 1; 0; 0; 9] = (OErr EPktLen, [9]). Proof. vm_compute. reflexivity. Qed.
 
+(* no retry inside the frame reader (regenerated): a hostile stream cannot keep it spinning on one frame *)
+Theorem C05_one_read_attempt_per_frame : cdf_nextframe_once codecfacts_now = true.
+Proof. exact codec_nextframe_once. Qed.
+
 Print Assumptions C05_eof_only_at_boundary.
 Print Assumptions C05_truncated_body_not_eof.
 Print Assumptions C05_bad_length_stops_before_payload.
@@ -63,3 +68,4 @@ Print Assumptions C05_nil_length_stops_before_payload.
 Print Assumptions C05_non_integer_prefix_stops.
 Print Assumptions C05_bad_header_is_fatal.
 Print Assumptions C05_chunked_refines_flat.
+Print Assumptions C05_one_read_attempt_per_frame.
